@@ -16,9 +16,9 @@ import (
 
 	"github.com/IrineSistiana/mosproxy/internal/pool"
 	"github.com/IrineSistiana/mosproxy/internal/upstream"
-	"github.com/miekg/dns"
 	"github.com/IrineSistiana/mosproxy/internal/upstream/transport"
 	"github.com/IrineSistiana/mosproxy/internal/zzverif/vtrace"
+	"github.com/miekg/dns"
 )
 
 func dialer(network, addr string) func(ctx context.Context) (net.Conn, error) {
@@ -154,9 +154,15 @@ func modeFallback(n int) {
 		if proto == "udp" {
 			b.tc = u == "tc"
 			b.drop = u == "drop"
+			if b.tc { // a truncated reply may carry any rcode (e.g. NXDOMAIN whose authority section did not fit)
+				b.rcode = []int{0, 0, 2, 3, 5}[(h>>4)%5]
+			}
 		} else {
 			b.abort = t == "abort"
 			b.drop = t == "drop"
+			// the server closes some connections right after the reply: the next fall-back finds a stale
+			// idle connection and has to send the same query again on a new one
+			b.closeAfter = (h>>12)%3 == 0
 		}
 		return b
 	}
